@@ -306,6 +306,46 @@ def accumulator_facts(repo: Path) -> dict:
 	return f
 
 
+def class_facts(repo: Path) -> dict:
+	"""method resolution of the signature collections, as the translator's `self_calls` tables assume it: which class defines which of the
+	indexing methods, and the order of the base classes that makes the mixin's `__getitem__` the one that runs"""
+	f = dict.fromkeys(['concatBases', 'concatMethods', 'arrayInherits', 'hdf5Inherits', 'listBases', 'listMethods', 'mixinMethods', 'refSigsNeutral'], False)
+	try:
+		base = ast.parse((repo / 'src' / 'gambit' / 'sigs' / 'base.py').read_text())
+		h5 = ast.parse((repo / 'src' / 'gambit' / 'sigs' / 'hdf5.py').read_text())
+		ix = ast.parse((repo / 'src' / 'gambit' / 'util' / 'indexing.py').read_text())
+	except (SyntaxError, OSError):
+		return f
+	INDEXING = {'__getitem__', '_check_index', '_getitem_int', '_getitem_slice', '_getitem_int_array', '_getitem_bool_array', '__len__', 'sizeof'}
+
+	def cls(tree, name):
+		return next((st for st in tree.body if isinstance(st, ast.ClassDef) and st.name == name), None)
+
+	def bases(c):
+		return [ast.unparse(b) for b in c.bases] if c is not None else None
+
+	def defined(c):
+		"""names bound in the class body: methods, assignments, anything else that could shadow an inherited method"""
+		out = set()
+		for st in (c.body if c is not None else []):
+			if isinstance(st, (ast.FunctionDef, ast.AsyncFunctionDef, ast.ClassDef)):
+				out.add(st.name)
+			elif isinstance(st, (ast.Assign, ast.AnnAssign, ast.AugAssign)):
+				out |= {x.id for x in ast.walk(st) if isinstance(x, ast.Name) and isinstance(x.ctx, ast.Store)}
+		return out
+	cc, sa, sl, rs, hs, mx = (cls(base, 'ConcatenatedSignatureArray'), cls(base, 'SignatureArray'), cls(base, 'SignatureList'),
+	                          cls(base, 'ReferenceSignatures'), cls(h5, 'HDF5Signatures'), cls(ix, 'AdvancedIndexingMixin'))
+	f['concatBases'] = bases(cc) == ['AdvancedIndexingMixin', 'AbstractSignatureArray']
+	f['concatMethods'] = cc is not None and defined(cc) & INDEXING == {'__len__', '_getitem_int', '_getitem_slice', '_getitem_int_array', 'sizeof'}
+	f['arrayInherits'] = bases(sa) == ['ConcatenatedSignatureArray'] and not (defined(sa) & INDEXING)
+	f['hdf5Inherits'] = bases(hs) == ['ConcatenatedSignatureArray', 'ReferenceSignatures'] and not (defined(hs) & INDEXING)
+	f['listBases'] = bases(sl) is not None and bases(sl)[:2] == ['AdvancedIndexingMixin', 'AbstractSignatureArray']
+	f['listMethods'] = sl is not None and defined(sl) & INDEXING == {'__len__', '_getitem_int', '_getitem_int_array'}
+	f['mixinMethods'] = mx is not None and not mx.bases and defined(mx) & INDEXING == {'__getitem__', '_check_index', '_getitem_int', '_getitem_slice', '_getitem_int_array', '_getitem_bool_array'}
+	f['refSigsNeutral'] = bases(rs) == ['AbstractSignatureArray'] and not (defined(rs) & INDEXING)
+	return f
+
+
 def query_flow_facts(repo: Path) -> dict:
 	"""`gambit.query.query`: which distances each result item is made of"""
 	f = dict.fromkeys(['dists', 'rows', 'inputsChecked', 'noOtherStores', 'result'], False)
@@ -656,6 +696,24 @@ def regenerate(repo: Path, out_dir: Path) -> dict:
 		ap.write_text(atext)
 	report['modules']['PyAccFacts'] = hashlib.sha1(atext.encode()).hexdigest()[:12]
 	report['functions'].append('sigs/calc.py ArrayAccumulator, SetAccumulator (structural facts)')
+	# --- sigs/base.py, sigs/hdf5.py, util/indexing.py: which class defines which indexing method ----------------------------------------------
+	kf = class_facts(repo)
+	KDOC = {'concatBases': '`ConcatenatedSignatureArray(AdvancedIndexingMixin, AbstractSignatureArray)`: the mixin comes first, so its `__getitem__` is the one that runs',
+	        'concatMethods': '… and defines, of the indexing methods, exactly `__len__`, `_getitem_int`, `_getitem_slice`, `_getitem_int_array`, `sizeof`',
+	        'arrayInherits': '`SignatureArray(ConcatenatedSignatureArray)` overrides none of the indexing methods',
+	        'hdf5Inherits': '`HDF5Signatures(ConcatenatedSignatureArray, ReferenceSignatures)` overrides none of them either',
+	        'listBases': '`SignatureList(AdvancedIndexingMixin, AbstractSignatureArray, …)`: the mixin first',
+	        'listMethods': '… and defines exactly `__len__`, `_getitem_int`, `_getitem_int_array` (slices and masks: the mixin\'s defaults)',
+	        'mixinMethods': '`AdvancedIndexingMixin` has no base class and defines `__getitem__`, `_check_index` and the four `_getitem_*`',
+	        'refSigsNeutral': '`ReferenceSignatures(AbstractSignatureArray)` defines none of the indexing methods'}
+	ktext = ('/-\nGENERATED by harness/pytrace.py from src/gambit/sigs/base.py, sigs/hdf5.py, util/indexing.py — do not edit.\n'
+	         'Regenerated at the start of every check; `GambitV.Tie.PyClassFacts` proves them.\n-/\nnamespace GambitV.Gen\n\n'
+	         + ''.join(f'/-- {KDOC[k]} -/\ndef pyClass_{k} : Bool := {b(v)}\n' for k, v in kf.items()) + '\nend GambitV.Gen\n')
+	kp = out_dir / 'PyClassFacts.lean'
+	if not kp.exists() or kp.read_text() != ktext:
+		kp.write_text(ktext)
+	report['modules']['PyClassFacts'] = hashlib.sha1(ktext.encode()).hexdigest()[:12]
+	report['functions'].append('sigs/base.py, sigs/hdf5.py, util/indexing.py (method resolution of the collections, structural facts)')
 	# --- which compiled functions the public names are ---------------------------------------------------------------------------------------
 	bf = binding_facts(repo)
 	BDOC = {'seqRevcomp': '`gambit.seq.revcomp` is `gambit._cython.kmers.revcomp` itself (imported at module level, bound by nothing else)',
